@@ -139,7 +139,7 @@ def run(ctx):
         if ctx.tier == "quick" and "q" in tiers:
             ctx.add(n, kq, timeout=1200)
         elif ctx.tier == "thorough":
-            if not kq and "ddr2" not in n:
+            if not kq and "ddr2" not in n and not ctx.only:
                 continue      # the remaining module benches are built on demand (--only) but are too heavy for a bounded thorough run
             ctx.add(n, (kq + 6) if kq else 30, timeout=1200, min_K=kq or 26, chunk=2)
     ctx.run()
